@@ -92,7 +92,7 @@ static void emit_io(const char *fmt, const std::string &label, const PointCloud 
       .raw("out", "{\"np\":" + std::to_string(outp ? outp->num_points() : 0) + ",\"faces\":" + jarr(fo) + ",\"atts\":" + oa + "],\"pt\":" + op + "]}").end();
 }
 
-static Geom gen_io_geom(vrt::Rng &r, bool mesh, bool with_color) {
+static Geom gen_io_geom(vrt::Rng &r, bool mesh, bool with_color, bool keep_dups = false) {
   Geom g;
   g.is_mesh = mesh;
   g.pc.reset(mesh ? new Mesh() : new PointCloud());
@@ -132,6 +132,20 @@ static Geom gen_io_geom(vrt::Rng &r, bool mesh, bool with_color) {
       g.mesh()->AddFace(fc);
     }
   }
+  if (keep_dups) {
+    // coincident samples: some points repeat another point in every attribute (a point cloud may hold the same sample twice; PLY stores one vertex per point)
+    for (int k = r.range(1, 3); k > 0; --k) {
+      const int dst = r.range(0, np - 1), src = r.range(0, np - 1);
+      for (int a = 0; a < g.pc->num_attributes(); ++a) {
+        PointAttribute *att = g.pc->attribute(a);
+        uint8_t buf[64];
+        att->GetValue(att->mapped_index(PointIndex(src)), buf);
+        if (att->is_mapping_identity()) att->SetAttributeValue(AttributeValueIndex(dst), buf);
+        else att->SetPointMapEntry(PointIndex(dst), att->mapped_index(PointIndex(src)));
+      }
+    }
+    return g;
+  }
   g.pc->DeduplicateAttributeValues();
   g.pc->DeduplicatePointIds();
   return g;
@@ -141,52 +155,59 @@ static const std::vector<GeometryAttribute::Type> kObjTypes = {GeometryAttribute
 static const std::vector<GeometryAttribute::Type> kPlyTypes = {GeometryAttribute::POSITION, GeometryAttribute::NORMAL, GeometryAttribute::COLOR};
 static const std::vector<GeometryAttribute::Type> kStlTypes = {GeometryAttribute::POSITION};
 
+// Every case runs twice: with fresh encoder / decoder objects ("rt") and with writer objects that have already served all earlier cases ("reuse": mesh after
+// cloud, cloud after mesh, ... in the order the cases come) -- what a written file contains must not depend on what the writer object wrote before.
 static int run_rt(uint64_t seed, long n) {
   vrt::Rng r(seed);
+  ObjEncoder reuse_oe; PlyEncoder reuse_pe; StlEncoder reuse_se;
+  // (readers are always fresh: ObjDecoder keeps its attribute ids from the previous file and is single-use -- DESIGN O5; C15 does not cover reader reuse)
   for (long i = 0; i < n; ++i) {
     const bool mesh = r.coin(3, 4);
-    {  // OBJ
-      Geom g = gen_io_geom(r, mesh, false);
-      EncoderBuffer eb;
-      ObjEncoder enc;
-      const bool eok = mesh ? enc.EncodeToBuffer(*g.mesh(), &eb) : enc.EncodeToBuffer(*g.pc, &eb);
-      std::unique_ptr<PointCloud> o(mesh ? new Mesh() : new PointCloud());
-      Status st(Status::DRACO_ERROR, "encode failed");
-      if (eok) {
-        DecoderBuffer db; db.Init(eb.data(), eb.size());
-        ObjDecoder dec;
-        st = mesh ? dec.DecodeFromBuffer(&db, static_cast<Mesh *>(o.get())) : dec.DecodeFromBuffer(&db, o.get());
+    for (int reuse = 0; reuse < 2; ++reuse) {
+      const char *label = reuse ? "reuse" : "rt";
+      {  // OBJ
+        Geom g = gen_io_geom(r, mesh, false);
+        EncoderBuffer eb;
+        ObjEncoder fresh_e; ObjEncoder &enc = reuse ? reuse_oe : fresh_e;
+        const bool eok = mesh ? enc.EncodeToBuffer(*g.mesh(), &eb) : enc.EncodeToBuffer(*g.pc, &eb);
+        std::unique_ptr<PointCloud> o(mesh ? new Mesh() : new PointCloud());
+        Status st(Status::DRACO_ERROR, "encode failed");
+        if (eok) {
+          DecoderBuffer db; db.Init(eb.data(), eb.size());
+          ObjDecoder dec;
+          st = mesh ? dec.DecodeFromBuffer(&db, static_cast<Mesh *>(o.get())) : dec.DecodeFromBuffer(&db, o.get());
+        }
+        emit_io("obj", label, *g.pc, mesh, st.ok() ? o.get() : nullptr, mesh, eok && st.ok(), st.ok() ? "" : st.error_msg(), kObjTypes, true);
       }
-      emit_io("obj", "rt", *g.pc, mesh, st.ok() ? o.get() : nullptr, mesh, eok && st.ok(), st.ok() ? "" : st.error_msg(), kObjTypes, true);
-    }
-    {  // PLY
-      Geom g = gen_io_geom(r, mesh, true);
-      EncoderBuffer eb;
-      PlyEncoder enc;
-      const bool eok = mesh ? enc.EncodeToBuffer(*g.mesh(), &eb) : enc.EncodeToBuffer(*g.pc, &eb);
-      std::unique_ptr<PointCloud> o(mesh ? new Mesh() : new PointCloud());
-      Status st(Status::DRACO_ERROR, "encode failed");
-      if (eok) {
-        DecoderBuffer db; db.Init(eb.data(), eb.size());
-        PlyDecoder dec;
-        st = mesh ? dec.DecodeFromBuffer(&db, static_cast<Mesh *>(o.get())) : dec.DecodeFromBuffer(&db, o.get());
+      {  // PLY (clouds keep coincident samples: one vertex per point, in order)
+        Geom g = gen_io_geom(r, mesh, true, !mesh && r.coin());
+        EncoderBuffer eb;
+        PlyEncoder fresh_e; PlyEncoder &enc = reuse ? reuse_pe : fresh_e;
+        const bool eok = mesh ? enc.EncodeToBuffer(*g.mesh(), &eb) : enc.EncodeToBuffer(*g.pc, &eb);
+        std::unique_ptr<PointCloud> o(mesh ? new Mesh() : new PointCloud());
+        Status st(Status::DRACO_ERROR, "encode failed");
+        if (eok) {
+          DecoderBuffer db; db.Init(eb.data(), eb.size());
+          PlyDecoder dec;
+          st = mesh ? dec.DecodeFromBuffer(&db, static_cast<Mesh *>(o.get())) : dec.DecodeFromBuffer(&db, o.get());
+        }
+        emit_io("ply", label, *g.pc, mesh, st.ok() ? o.get() : nullptr, mesh, eok && st.ok(), st.ok() ? "" : st.error_msg(), kPlyTypes, false);
       }
-      emit_io("ply", "rt", *g.pc, mesh, st.ok() ? o.get() : nullptr, mesh, eok && st.ok(), st.ok() ? "" : st.error_msg(), kPlyTypes, false);
-    }
-    if (mesh) {  // STL (triangle soup of positions)
-      Geom g = gen_io_geom(r, true, false);
-      EncoderBuffer eb;
-      StlEncoder enc;
-      const Status es = enc.EncodeToBuffer(*g.mesh(), &eb);
-      std::unique_ptr<Mesh> o;
-      std::string err = es.ok() ? "" : es.error_msg();
-      if (es.ok()) {
-        DecoderBuffer db; db.Init(eb.data(), eb.size());
-        StlDecoder dec;
-        auto res = dec.DecodeFromBuffer(&db);
-        if (res.ok()) o = std::move(res).value(); else err = res.status().error_msg();
+      if (mesh) {  // STL (triangle soup of positions)
+        Geom g = gen_io_geom(r, true, false);
+        EncoderBuffer eb;
+        StlEncoder fresh_e; StlEncoder &enc = reuse ? reuse_se : fresh_e;
+        const Status es = enc.EncodeToBuffer(*g.mesh(), &eb);
+        std::unique_ptr<Mesh> o;
+        std::string err = es.ok() ? "" : es.error_msg();
+        if (es.ok()) {
+          DecoderBuffer db; db.Init(eb.data(), eb.size());
+          StlDecoder dec;
+          auto res = dec.DecodeFromBuffer(&db);
+          if (res.ok()) o = std::move(res).value(); else err = res.status().error_msg();
+        }
+        emit_io("stl", label, *g.pc, true, o.get(), true, o != nullptr, err, kStlTypes, false);
       }
-      emit_io("stl", "rt", *g.pc, true, o.get(), true, o != nullptr, err, kStlTypes, false);
     }
   }
   return 0;
